@@ -87,7 +87,20 @@ def apply_history(la, hist):
 
 
 def subject(case):
-    return apply_history(build_lanelet(case), case.get("hist"))
+    hist = list(case.get("hist") or [])
+    if "set_vertices" not in hist:
+        return apply_history(build_lanelet(case), hist)
+    # the lanelet is built with other polylines (stretched and moved), used, and then given the case's polylines
+    # through its public vertex setters: from then on it is the lanelet of the case
+    i = hist.index("set_vertices")
+    other = dict(case)
+    for k in ("left", "center", "right"):
+        other[k] = [[2.0 * p[0] + 1.0, p[1] - 3.0] + list(p[2:]) for p in case[k]]
+    la = apply_history(build_lanelet(other), hist[:i])
+    la.left_vertices = np.array(case["left"], dtype=float)
+    la.right_vertices = np.array(case["right"], dtype=float)
+    la.center_vertices = np.array(case["center"], dtype=float)
+    return apply_history(la, hist[i + 1:])
 
 
 def effective(case):
@@ -529,8 +542,9 @@ def gen_dim(rng):
 def gen_history(rng, dim):
     """what happened to the lanelet between construction and the judged call"""
     if dim == 3:
-        return rng.choice([[], [], [], ["touch"], ["to2d"], ["touch", "to2d"], ["touch", "to2d"]])
-    return rng.choice([[], [], [], [], ["touch"], ["to2d"], ["touch", "to2d"]])
+        return rng.choice([[], [], [], ["touch"], ["to2d"], ["touch", "to2d"], ["touch", "to2d"], ["touch", "set_vertices"]])
+    return rng.choice([[], [], [], [], ["touch"], ["to2d"], ["touch", "to2d"], ["touch", "set_vertices"], ["set_vertices"],
+                       ["touch", "set_vertices", "touch"]])
 
 
 def gen_lanelet_geom(rng, mode=None, n=None, dup=False, dim=None):
